@@ -161,6 +161,7 @@ def execute(scn):
             ambiguous = exp["ambiguous"]
         requested = list(updates.keys())
         before = world.grads()
+        kept_before = list(world._keep)  # every .grad tensor object ever observed in this world (all kept alive)
         akey = json.dumps(call["agg"], sort_keys=True)
         if akey in agg_cache:
             stats["reach.aggregator_instance_reused_across_steps"] = stats.get("reach.aggregator_instance_reused_across_steps", 0) + 1
@@ -209,6 +210,15 @@ def execute(scn):
                 if g.untyped_storage().nbytes() != own or g.storage_offset() != 0:
                     viols.append({"clause": "fresh_grad_shares_storage", "step": si, "details": {"param": n, "storage_nbytes": g.untyped_storage().nbytes(), "own_nbytes": own, "offset": g.storage_offset()}, "key": {}})
                 lo, hi = g.data_ptr(), g.data_ptr() + own
+                # tensors the user may still hold: every .grad object seen earlier (e.g. kept before `grad = None`)
+                for old in kept_before:
+                    if old.numel() == 0 or own == 0:
+                        continue
+                    lo2 = old.data_ptr()
+                    hi2 = lo2 + old.numel() * old.element_size()
+                    if old is g or (lo < hi2 and lo2 < hi):
+                        viols.append({"clause": "fresh_grad_overlaps_other_tensor", "step": si, "details": {"param": n, "other": "a .grad tensor object observed earlier in the history" + (" (the very same object)" if old is g else "")}, "key": {}})
+                        break
                 for n2 in world.names:
                     t2 = world.t[n2]
                     others = [t2]
